@@ -105,9 +105,11 @@ def service_of(t, tops):
 
 
 class CEmitter:
-    def __init__(self, ctypes: typing.List[pydsdl.CompositeType], tops=None):
+    def __init__(self, ctypes: typing.List[pydsdl.CompositeType], tops=None, skip: typing.Optional[typing.Set[int]] = None):
+        """skip: indices of codec types that are left out of this harness (their case numbers stay reserved)."""
         self.ctypes = ctypes
         self.tops = tops
+        self.skip = skip or set()
         self.n = 0
 
     def tmp(self) -> str:
@@ -212,19 +214,21 @@ class CEmitter:
 
     def emit(self, include_paths: typing.List[str]) -> str:
         out = [PRELUDE.replace("@INCLUDES@", "\n".join(f'#include "{p}"' for p in include_paths))]
-        names = [c_type_name(t) for t in self.ctypes]
+        live = [(k, c_type_name(t)) for k, t in enumerate(self.ctypes) if k not in self.skip]
+        names = [n for _, n in live]
         for n in names:
             out.append(f"static void load_{n}(In* in, {n}* obj); static void dump_{n}(Out* o, const {n}* obj); static {n}* keep_{n} = NULL;")
-        for ct in self.ctypes:
-            out.append(self.type_functions(ct))
+        for k, ct in enumerate(self.ctypes):
+            if k not in self.skip:
+                out.append(self.type_functions(ct))
         # S
         out.append("static void do_S(int ti, int prefill, size_t bufsize, const char* words_hex) {\n  size_t nw; uint64_t* w = hex_words(words_hex, &nw); In in = { w, nw, 0 };\n  uint8_t* buf = (uint8_t*) malloc(bufsize); memset(buf, prefill, bufsize); size_t size = bufsize; int rc = 99;\n  switch (ti) {")
-        for k, n in enumerate(names):
+        for k, n in live:
             out.append(f"  case {k}: {{ {n}* obj = ({n}*) malloc(sizeof({n})); memset(obj, 0, sizeof({n})); load_{n}(&in, obj); rc = {n}_serialize_(obj, buf, &size); free(obj); break; }}")
         out.append('  default: break; }\n  if (rc == 0 && size > bufsize) { printf("S %d %zu OVERSIZE", rc, size); } else { printf("S %d %zu ", rc, rc == 0 ? size : 0); print_hex(buf, rc == 0 ? size : 0); }\n  printf("\\n"); free(buf); free(w);\n}')
         # D
         out.append("static void do_D(int ti, char mode, const char* prior_hex, const char* bytes_hex) {\n  size_t nb; uint8_t* b = hex_bytes(bytes_hex, &nb); size_t nw; uint64_t* w = hex_words(prior_hex, &nw); In in = { w, nw, 0 };\n  Out o = { NULL, 0, 0 }; size_t size = nb; int rc = 99;\n  switch (ti) {")
-        for k, n in enumerate(names):
+        for k, n in live:
             out.append(
                 f"  case {k}: {{ {n}* obj; if (mode == 'K') {{ if (!keep_{n}) {{ keep_{n} = ({n}*) malloc(sizeof({n})); {n}_initialize_(keep_{n}); }} obj = keep_{n}; }}"
                 f" else {{ obj = ({n}*) malloc(sizeof({n})); if (mode == 'P') memset(obj, 0xA5, sizeof({n})); else if (mode == 'Z') memset(obj, 0, sizeof({n})); else {n}_initialize_(obj); if (mode == 'V') load_{n}(&in, obj); }}"
@@ -240,6 +244,8 @@ class CEmitter:
     def emit_meta(self) -> str:
         L = ["static void do_M(int ti) {\n  switch (ti) {"]
         for k, ct in enumerate(self.ctypes):
+            if k in self.skip:
+                continue
             t = inner(ct)
             n = c_type_name(t)
             L.append(f"  case {k}: {{")
